@@ -111,6 +111,8 @@ def _rt_part(ctx, cfg, plan_beh, svcs, box):
         r, lb = C.long_generate(ctx, "rt", list(range(1, rc["long_ids"] + 1)), depth=rc["long_depth"], num=rc["long_num"],
                                 real_time=True, seed=ctx.seed + 5)
         hs2 = [C.long_to_timed(b, wait_out=(i % 3 != 0)) for i, b in enumerate(lb)]
+        hs = [C.rt_with_reload(h, svcs, i) for i, h in enumerate(hs)]
+        hs2 = [C.rt_with_reload(h, svcs, i) for i, h in enumerate(hs2)]
         runs = []
         for secs in [rc["seconds"]] + ([rc["also_seconds"]] if rc.get("also_seconds") else []):
             timing = C.Timing(secs)
